@@ -50,6 +50,11 @@ pub fn run_derive<D: DModel>(ctx: &mut Ctx) {
         };
         let hx = hex(&bytes);
         ctx.out.m("derive", &hx, &["denc", &d, &val]);
+        if d.starts_with("DEu") && val.starts_with('U') {
+            // C15: a derived union writes the zero-based declaration index as its first byte
+            let idx: Option<usize> = val[1..].split('(').next().and_then(|x| x.parse().ok());
+            ctx.out.r("C15", "derive", idx.is_some() && bytes.first().map(|b| *b as usize) == idx, &["selector_is_declaration_index", "denc", &d, &val, name]);
+        }
         ctx.out.o("C08", "derive", &hx, &["dspec", &d, &val]);
         ctx.out.o("C03", "derive", &hx, &["dspec", &d, &val]);
         ctx.out.r("C07", "derive", v.ssz_bytes_len() == bytes.len(), &["bytes_len", "denc", &d, &val, name]);
